@@ -153,7 +153,7 @@ struct Gen<'a> {
 
 impl Gen<'_> {
     fn leaf(&mut self, ty: Ty) -> Option<X> {
-        let k = if self.lit_budget > 0 { self.c.choose(match ty { Ty::Num => 4, Ty::Bool => 2 }, "leaf") } else { 0 };
+        let k = if self.lit_budget > 0 { self.c.choose(match ty { Ty::Num => 5, Ty::Bool => 2 }, "leaf") } else { 0 };
         if k != 0 {
             self.lit_budget -= 1;
         }
@@ -167,7 +167,9 @@ impl Gen<'_> {
             }
             (Ty::Num, 1) => X::Lit(Ty::Num, "2"),
             (Ty::Num, 2) => X::Lit(Ty::Num, "-1"),
-            (Ty::Num, _) => X::Lit(Ty::Num, "0.5"),
+            (Ty::Num, 3) => X::Lit(Ty::Num, "0.5"),
+            // the same value as the integer literal 2, spelled as a float
+            (Ty::Num, _) => X::Lit(Ty::Num, "2.0"),
             (Ty::Bool, 0) => {
                 if self.next_bool >= 3 {
                     return None;
@@ -347,7 +349,7 @@ impl Atoms {
         add("abs", "(math.abs x)", &[("x", "@0")])?;
         add("case1", "case [p => x]", &[("p", "@0"), ("x", "@1")])?;
         add("case2", "case [p => x, q => y]", &[("p", "@0"), ("x", "@1"), ("q", "@2"), ("y", "@3")])?;
-        for lit in ["2", "-1", "0.5", "true", "null"] {
+        for lit in ["2", "-1", "0.5", "2.0", "true", "null"] {
             add(&format!("lit:{lit}"), lit, &[])?;
         }
         Ok(Atoms { map })
@@ -895,7 +897,7 @@ pub fn run(tier: Tier) -> i32 {
     }
     run.states = all.len() as u64;
     run.transitions = st.points;
-    run.set("bounds", json!({"depth2": "every well-typed tree over 17 binary (7 arithmetic, 6 comparison, ??, &&, ||, == / != on booleans), 3 unary, null tests, case (1-2 arms), in-range, math.abs; leaves: columns, 2, -1, 0.5, true, null",
+    run.set("bounds", json!({"depth2": "every well-typed tree over 17 binary (7 arithmetic, 6 comparison, ??, &&, ||, == / != on booleans), 3 unary, null tests, case (1-2 arms), in-range, math.abs; leaves: columns, 2, -1, 0.5, 2.0, true, null",
         "depth3": tier.pick("chains of binary operators (every nested triple, each side), column leaves", "chains over the full node alphabet, column leaves"), "literal_leaves": "all combinations at depth 1; one literal leaf at depth 2", "operand_domain_numeric": NUM_DOMAIN, "operand_domain_boolean": BOOL_DOMAIN, "executed_dialects": ["sqlite","generic"], "parsed_dialects": 10}));
     run.set("rule", json!("state = one expression tree printed with minimal parentheses; validated = trees whose compiled SQL was evaluated against the assembled fully parenthesised SQL on the whole operand cross product (layer 1) + operand pairs of atomic applications compared with the documented meaning (layer 2); layer 3 compares sqlparser ASTs for the 10 other dialects"));
     run.assume("SQLite evaluates both texts; operator meaning cancels in layer 1. Layer 3 is as good as sqlparser's per-dialect precedence tables.");
